@@ -819,7 +819,9 @@ def run(ctx):
                        'oracle of recorded runs: numpy lstsq on a Cox-de Boor design matrix over the knots read back from the '
                        'returned object; residuals within 1e-6 sigma of a limit count either way; returned curve compared at '
                        '1e-3 sigma (harness-evaluated numeric relation)',
-                       'data are gap free with >= 30 points per breakpoint interval; runs in which a fit reports a non-zero '
+                       'recorded data: 3 of 5 sets dense (>= 30 points per breakpoint interval, gap free), 2 of 5 sparse / irregular '
+                       '(intervals holding exactly 1, 2 or 3 points next to dense ones, isolated points, everyn 2..4) with every fit '
+                       'still determined; runs in which a fit reports a non-zero '
                        'status or raises from maskpoints are outside C10 (C09) and are counted as skipped, not judged',
                        'maxiter = 0: the mask may or may not carry the rejections of the single pass (statement leaves it open)',
                        'fewer positively weighted points than the spline order: outside the statement (pc = "unspec")',
